@@ -160,6 +160,7 @@ func C01Configs(thorough bool) []*world.Config {
 	add(world.BytesCfg(2, []uint8{0, 1, 0, 2, 0}, B, "none"))
 	add(world.StructCfg(2, []uint8{0, 1, 0, 2, 0}, M, "none"))
 	add(ChainSeeded(M, 3))
+	add(Seeded16(B, 2))
 	im := world.IntCfg(16, []int{1, 2, 3, 16, 32}, []interface{}{"a", "b"}, "", B, "none")
 	im.InMemory = true
 	im.Name = "inmemory/" + im.Name
